@@ -56,7 +56,8 @@ func lintContent(path string, src []byte, rep int) result {
 	errs, err := l.Lint(path, src, nil)
 	r := result{Errs: fmtErrs(errs), Out: out.String()}
 	if err != nil {
-		r.Fail = "fatal"
+		// the text of a fatal error is part of the result
+		r.Fail = "fatal: " + err.Error()
 	}
 	return r
 }
@@ -68,7 +69,8 @@ func lintRepo(dir string, rep int) result {
 	errs, err := l.LintRepository(dir)
 	r := result{Errs: fmtErrs(errs), Out: out.String()}
 	if err != nil {
-		r.Fail = "fatal"
+		// the text of a fatal error is part of the result
+		r.Fail = "fatal: " + err.Error()
 	}
 	return r
 }
@@ -80,7 +82,8 @@ func lintFiles(files []string, rep int) result {
 	errs, err := l.LintFiles(files, nil)
 	r := result{Errs: fmtErrs(errs), Out: out.String()}
 	if err != nil {
-		r.Fail = "fatal"
+		// the text of a fatal error is part of the result
+		r.Fail = "fatal: " + err.Error()
 	}
 	return r
 }
@@ -317,7 +320,8 @@ func main() {
 	seed := flag.Uint64("seed", 1, "PRNG seed")
 	reps := flag.Int("reps", 24, "repetitions per input")
 	extractAmbient := flag.String("extract-ambient", "", "translator mode: list the ambient reads of the package in this directory")
-	gen := flag.String("gen", "GenAmbient.v", "output of -extract-ambient")
+	gen := flag.String("gen", "GenAmbient.v", "output of -extract-ambient / -extract-mapranges")
+	extractRanges := flag.String("extract-mapranges", "", "translator mode: list the range-over-map loops of the package in this directory")
 	ambientBroken := flag.Bool("ambient-broken", false, "the ambient-read gate (coq/Out/Ambient.v) no longer checks: search for a failing input")
 	nsite := flag.Int("nsite", 60, "generated cases per site")
 	out := flag.String("out", "", "output directory")
@@ -326,6 +330,9 @@ func main() {
 	flag.Parse()
 	if *extractAmbient != "" {
 		os.Exit(doExtractAmbient(*extractAmbient, *gen))
+	}
+	if *extractRanges != "" {
+		os.Exit(doExtractMapRanges(*extractRanges, *gen))
 	}
 
 	if *replay != "" {
@@ -395,7 +402,7 @@ func main() {
 					what = "the same messages are attributed to different files (or reported a different number of times) between repetitions of a multi-file run"
 					key = k
 				}
-				sum.OracleFails = append(sum.OracleFails, failure{What: what, Key: key, Input: input, First: first.Errs, Other: o.Errs, Source: source})
+				sum.OracleFails = append(sum.OracleFails, failure{What: what, Key: key, Input: input, First: first.Errs + first.Fail, Other: o.Errs + o.Fail, Source: source})
 				return
 			}
 		}
@@ -754,6 +761,20 @@ func main() {
 			res := lintFiles([]string{wf}, rep)
 			res.Errs = strings.ReplaceAll(res.Errs, lp, "<proj>")
 			res.Out = strings.ReplaceAll(res.Out, lp, "<proj>")
+			return res
+		})
+	}
+	// (9d) a configuration with SEVERAL invalid entries: the fatal error names the same one every time
+	{
+		fp := filepath.Join(*out, "badcfgproj")
+		hx.Must(os.MkdirAll(filepath.Join(fp, ".git"), 0o755))
+		writeFile(filepath.Join(fp, ".github", "actionlint.yaml"), "paths:\n  'a[':\n    ignore: [x]\n  'b[':\n    ignore: [y]\n  'c[':\n    ignore: [z]\n  'd[':\n    ignore: [z]\n")
+		wf := filepath.Join(fp, ".github", "workflows", "w.yaml")
+		writeFile(wf, "on: push\njobs:\n  a:\n    runs-on: ubuntu-latest\n    steps:\n      - run: echo\n")
+		sum.Dist["invalid_config_runs"]++
+		check("multi:config-with-several-invalid-globs", "a configuration whose `paths` section has four invalid glob patterns", "", func(rep int) result {
+			res := lintFiles([]string{wf}, rep)
+			res.Fail = strings.ReplaceAll(res.Fail, fp, "<proj>")
 			return res
 		})
 	}
